@@ -63,7 +63,7 @@ pub const OPS_C02: [&str; 21] = [
     "deletion-of-own-row-dated-after-author-was-disabled",
 ];
 pub const OPS_C06: [&str; 5] = ["reference-splice-entity-label", "signing-oracle-node", "signing-oracle-reference", "row-splice-json-binary", "row-splice-entity-json"];
-pub const OPS_C07: [&str; 11] = [
+pub const OPS_C07: [&str; 12] = [
     "older-definition-with-entries-omitted",
     "user-entry-reattached-as-admin",
     "self-signed-admin-entry",
@@ -75,7 +75,10 @@ pub const OPS_C07: [&str; 11] = [
     "entries-omitted-while-a-legitimate-entry-is-added",
     "user-entry-signed-by-a-revoked-user-admin",
     "existing-entry-altered-under-the-same-id",
+    "right-signed-by-a-former-admin-after-its-revocation",
 ];
+/// operators that make sense for an instance that never saw the room (omissions cannot be told from an older definition)
+pub const FRESH_OPS_C07: [usize; 10] = [1, 2, 3, 4, 5, 6, 7, 9, 10, 11];
 
 #[derive(Clone, Debug, Serialize, Deserialize)]
 pub struct Cfg {
@@ -153,7 +156,7 @@ pub fn generate(seed: u64, property: &str, thorough: bool) -> Trace {
             _ => {
                 steps.push(Step::HonestWrite { dt: *rw.pick(&[DAY_MS, 2 * DAY_MS]) });
                 if property == "C07" && rw.chance(1, 5) {
-                    steps.push(Step::AttackNew { op: 1 + rw.usize(nops - 2) });
+                    steps.push(Step::AttackNew { op: *rw.pick(&FRESH_OPS_C07) });
                 } else {
                     steps.push(Step::Attack { op: rw.usize(nops), alone: rw.chance(1, 3) });
                 }
@@ -181,7 +184,7 @@ pub fn directed(property: &str) -> Vec<Trace> {
     let mut out = vec![];
     if property == "C07" {
         // omissions (operators 0 and 8) cannot be told from an older definition by an instance that never saw the room
-        for op in (1..nops - 1).flat_map(|op| [(op, false), (op, true)]) {
+        for op in FRESH_OPS_C07.iter().flat_map(|op| [(*op, false), (*op, true)]) {
             let (op, disabled) = op;
             let mut steps = vec![Step::HonestWrite { dt: 1000 }];
             if disabled {
@@ -278,6 +281,11 @@ const V: usize = 1;
 const M: usize = 2;
 const W: usize = 3;
 
+/// the key of the former admin K of room r1 (C07)
+fn former_admin_key() -> dv::Ed25519SigningKey {
+    dv::Ed25519SigningKey::create_from(&[0x4b; 32])
+}
+
 fn clocks(c: &mut Ctx) {
     for n in &mut c.w.nodes {
         n.clock = c.now;
@@ -306,12 +314,14 @@ fn setup(c: &mut Ctx) -> Result<(), String> {
     let (kh, kv, km) = (dv::base64_encode(&c.w.nodes[H].vk), dv::base64_encode(&c.w.nodes[V].vk), dv::base64_encode(&c.w.nodes[M].vk));
     // C07: a third group of which M is the user admin from the start (revoked below)
     let gua = if nb == 4 { format!(r#",{{ name:"ua" rights:[{{entity:"Pet" mutate_self:true mutate_all:false}}] user_admin:[{{verif_key:"{}"}}] }}"#, dv::base64_encode(&c.w.nodes[M].vk)) } else { String::new() };
+    // C07: a second admin K (a key the harness holds, no instance) from the creation of the room, disabled below
+    let kk = if nb == 4 { format!(r#",{{verif_key:"{}"}}"#, dv::base64_encode(&dv::SigningKey::export_verifying_key(&former_admin_key()))) } else { String::new() };
     let kw = if nb == 4 { format!(r#",{{verif_key:"{}"}}"#, dv::base64_encode(&c.w.nodes[W].vk)) } else { String::new() };
     c.now += 100;
     clocks(c);
     // r1: H admin; group "full": H, V with every right; group "m": M with the own-rows right on Person only
     let q = format!(
-        r#"mutate {{ sys.Room{{ admin:[{{verif_key:"{kh}"}}] authorisations:[{{ name:"full" rights:[{{entity:"*" mutate_self:true mutate_all:true}}] users:[{{verif_key:"{kh}"}},{{verif_key:"{kv}"}}{kw}] }},{{ name:"m" rights:[{{entity:"Person" mutate_self:true mutate_all:false}}] }}{gua}] }} }}"#
+        r#"mutate {{ sys.Room{{ admin:[{{verif_key:"{kh}"}}{kk}] authorisations:[{{ name:"full" rights:[{{entity:"*" mutate_self:true mutate_all:true}}] users:[{{verif_key:"{kh}"}},{{verif_key:"{kv}"}}{kw}] }},{{ name:"m" rights:[{{entity:"Person" mutate_self:true mutate_all:false}}] }}{gua}] }} }}"#
     );
     let r = c.w.nodes[H].mutate(&q, None)?;
     let _ = c.w.nodes[H].drain_events();
@@ -339,6 +349,13 @@ fn setup(c: &mut Ctx) -> Result<(), String> {
         c.now += 3_600_000;
         clocks(c);
         let q = format!(r#"mutate {{ sys.Room{{ id:"{id}" admin:[{{verif_key:"{kw}" enabled:false}}] }} }}"#);
+        c.w.nodes[H].mutate(&q, None)?;
+        let _ = c.w.nodes[H].drain_events();
+        // K stops being an admin
+        c.now += 1000;
+        clocks(c);
+        let kkey = dv::base64_encode(&dv::SigningKey::export_verifying_key(&former_admin_key()));
+        let q = format!(r#"mutate {{ sys.Room{{ id:"{id}" admin:[{{verif_key:"{kkey}" enabled:false}}] }} }}"#);
         c.w.nodes[H].mutate(&q, None)?;
         let _ = c.w.nodes[H].drain_events();
         // and M stops being the user admin of the third group
@@ -747,7 +764,7 @@ fn exec_step(c: &mut Ctx, st: &Step) -> Result<(), String> {
             c.w.log.sched("disable-m");
         }
         Step::AttackNew { op } => {
-            if c.prop == "C07" && c.w.nodes.len() > W && !c.fresh_used && *op % OPS_C07.len() != 0 && *op % OPS_C07.len() != 8 {
+            if c.prop == "C07" && c.w.nodes.len() > W && !c.fresh_used && FRESH_OPS_C07.contains(&(*op % OPS_C07.len())) {
                 c.fresh_used = true;
                 c.any = true;
                 attack_c07_new(c, OPS_C07[*op % OPS_C07.len()])?;
@@ -1328,6 +1345,19 @@ fn craft_definition(c: &mut Ctx, op: &'static str) -> Result<Option<dv::RoomNode
             let e = sign_edge(e0.src, &e0.src_entity, &e0.label, e0.dest)?;
             rn.admin_edges.retain(|x| x.dest != e0.dest);
             rn.admin_edges.push(e);
+        }
+        "right-signed-by-a-former-admin-after-its-revocation" => {
+            // K was an admin from the creation of the room and is disabled: it signs, dated now, an all-rights entry
+            // for the adversary's group and the reference that places it
+            let kkey = former_admin_key();
+            let tmpl = cur.auth_nodes[g_full].right_nodes[0].node._json.clone().unwrap_or_default();
+            let mut n = dv::Node { id: dv::new_uid(), room_id: None, cdate: date, mdate: date, _entity: right_ent.clone(), _json: Some(tmpl), _binary: None, verifying_key: vec![], _signature: vec![], _local_id: None };
+            n.sign(&kkey).map_err(|e| e.to_string())?;
+            let gid = cur.auth_nodes[g_m].node.id;
+            let mut e = dv::Edge { src: gid, src_entity: auth_ent.clone(), label: right_label.clone(), dest: n.id, cdate: date, verifying_key: vec![], signature: vec![] };
+            e.sign(&kkey).map_err(|e| e.to_string())?;
+            rn.auth_nodes[g_m].right_edges.push(e);
+            rn.auth_nodes[g_m].right_nodes.push(dv::EntityRightNode { node: n });
         }
         "existing-entry-altered-under-the-same-id" => {
             // an entry the victim stores, same id, other content, signed again by the adversary: the all-rights entry of the
